@@ -610,7 +610,9 @@ func init() {
 			fail("gen_check: dependencyProjectRoots / checkCircularDependencies not found")
 		} else {
 			// a target = an absolute path as spelled; the model sees its cleaned components (names as numbers)
-			nameNo := map[string]int{"p": 1, "a": 2, "b": 3, "ab": 4, "q": 5}
+			// names that are string prefixes of a sibling's name (a / ab / a.b / a_2, p / pa): containment is by whole path
+			// components, a target whose text merely starts with another target's text is a project root of its own
+			nameNo := map[string]int{"p": 1, "a": 2, "b": 3, "ab": 4, "q": 5, "a.b": 6, "a_2": 7, "pa": 8}
 			comps := func(p string) (string, bool) {
 				var xs []string
 				for _, c := range strings.Split(filepath.Clean(p), "/") {
@@ -625,7 +627,7 @@ func init() {
 				}
 				return "[" + strings.Join(xs, "; ") + "]", true
 			}
-			spellings := []string{"/p", "/p/a", "/p/a/b", "/p/b", "/p/ab", "/q", "/p/a/", "/p/b/../a", "/"}
+			spellings := []string{"/p", "/p/a", "/p/a/b", "/p/b", "/p/ab", "/q", "/p/a/", "/p/b/../a", "/", "/p/a.b", "/p/a_2/", "/pa", "/pa/a"}
 			var lists [][]string
 			for _, x := range spellings {
 				lists = append(lists, []string{x})
@@ -641,7 +643,9 @@ func init() {
 					}
 				}
 			}
-			lists = append(lists, []string{"/p/a/b", "/p/a", "/p", "/p/a/b"}, []string{"/q", "/p/a", "/q", "/p/a/b", "/p/a"})
+			lists = append(lists, []string{"/p/a/b", "/p/a", "/p", "/p/a/b"}, []string{"/q", "/p/a", "/q", "/p/a/b", "/p/a"},
+				[]string{"/p/a", "/p/ab", "/p/a.b", "/p/a_2"}, []string{"/p/a_2", "/p/a.b", "/p/ab", "/p/a"}, []string{"/p/ab", "/p/a", "/p/a/b", "/p/a.b"},
+				[]string{"/pa", "/p", "/p/a"}, []string{"/p/a", "/pa", "/p"}, []string{"/pa/a", "/p/a", "/pa"})
 			var rows []string
 			bad := false
 			for _, l := range lists {
